@@ -79,6 +79,10 @@ def corpus_iter(tier, seed, derives=('EnumIter', 'EnumCount')):
     A(8)
     A(3, (), kinds='named', const_generic=True)
     A(6, (0, 7), kinds='mixed', generic=True, const_generic=True)
+    A(3, (1, 2), kinds='mixed')
+    for v in out[-1].variants:
+        v.serialize = [v.ident.lower()]
+    out[-1].attr_layout = 'split'
     if tier == 'quick':
         return out
     # every placement of 0..2 disabled variants for N <= 4, alternating kinds
@@ -358,6 +362,15 @@ def corpus_parse(tier, seed, focus='C01', nm=None):
     A([V('Red'), V('Other', 'tuple', ['Cap'], default=True, disabled=True), V('Blue', aci=True)])
     # 14 to_string only / serialize only / both, under a style: the converted identifier is NOT a spelling once an explicit one exists
     A([V('DeepPurple', ts='purp'), V('LightBlue', ser=['lb']), V('DarkGreen', ser=['dg'], ts='dgreen'), V('PlainOne')], serialize_all='snake_case')
+    # 15 spellings that coincide under Unicode case mapping but not under ASCII folding (so they do not overlap); attributes split over several #[strum]
+    p = A([V('K', ser=['k'], aci=True), V('Kelvin', ser=['\u212a'], aci=True), V('Ete', ser=['\u00e9t\u00e9'], aci=True), V('EteCap', ser=['\u00c9t\u00e9']),
+           V('Gone', disabled=True, ser=['kitty'])])
+    p.attr_layout = 'split'
+    # 16 the longest spelling is non-ASCII (more bytes than chars); a fixed name with escaped braces on a named-field variant
+    A([V('Tr', ser=['T\u00fcrk\u00e7e-dili']), V('Short', ser=['ab']), V('Block', 'named', ['u8'], ts='{{block}}'), V('Brace', 'tuple', ['u8'], ser=['}}x{{'])])
+    # 17 a default variant together with the custom-error attributes: the catch-all wins, the error function is never called
+    p = A([V('Red', aci=True), V('Other', 'tuple', ['Cap'], default=True)], parse_err_ty='PErr', parse_err_fn='perr')
+    p.attr_layout = 'split_rev'
     if tier == 'quick':
         return out
     styles = [None, 'snake_case', 'SCREAMING_SNAKE_CASE', 'kebab-case', 'camelCase', 'PascalCase', 'lowercase', 'UPPERCASE', 'title_case', 'mixed_case', 'Train-Case', 'SCREAMING-KEBAB-CASE']
@@ -395,7 +408,9 @@ def corpus_parse(tier, seed, focus='C01', nm=None):
         kw = dict(serialize_all=styles[k % len(styles)], aci=enum_aci)
         if custom:
             kw.update(parse_err_ty='PErr', parse_err_fn='perr')
-        A(vs, **kw)
+        if has_default and k % 10 == 1:
+            kw.update(parse_err_ty='PErr', parse_err_fn='perr')
+        A(vs, **kw).attr_layout = ['joined', 'split', 'split_rev'][k % 3]
     return out
 
 
@@ -432,6 +447,8 @@ def corpus_print(tier, seed, derives=PRINTERS, with_forward=True, with_prefix=Tr
     if with_forward:
         A([V('Red'), V('Other', 'tuple', ['Cap'], default=True), V('Named', ts='named!')], derives=tuple(x for x in der if x != 'IntoStaticStr'))
         A([V('Red'), V('Other', 'named', ['Cap'], names=['raw'], default=True, ts='fixed-other')], derives=('Display',) + tuple(extra_derives))
+        # a default variant with serialize literals but no to_string still forwards to its inner value
+        A([V('Red', ser=['r']), V('Other', 'tuple', ['Cap'], default=True, ser=['fallback', 'fb'])], derives=('Display', 'VariantNames') + tuple(extra_derives)).attr_layout = 'split'
         A([V('Wrap', 'tuple', ['Cap'], ), V('WrapN', 'named', ['Cap'], names=['inner']), V('Plain')], derives=('Display', 'AsRefStr'))
         out[-1].variants[0].transparent = True
         out[-1].variants[1].transparent = True
@@ -475,7 +492,7 @@ def corpus_print(tier, seed, derives=PRINTERS, with_forward=True, with_prefix=Tr
             kw['prefix'] = ['pre.', '', '\u00fc_', 'NS::'][(k // 4) % 4]
         if k % 5 == 2:
             kw['const_into_str'] = True
-        A(vs, **kw)
+        A(vs, **kw).attr_layout = ['joined', 'split', 'split_rev'][k % 3]
     return out
 
 
@@ -506,6 +523,11 @@ def corpus_disc(tier, seed):
     p.tags.append('restricted_vis')
     p = A([V('A'), V('B'), V('C'), V('D')], repr='u16')
     p.variants[0].disc, p.variants[2].disc = '500', '2'
+    # expressions with operators Verus' const evaluation does not take: decided by the Kani twin
+    p = A([V('Read'), V('Write'), V('Exec', 'tuple', ['u8']), V('All')], repr='u8')
+    p.variants[0].disc, p.variants[2].disc = '1 << 2', '0x10 | 3'
+    p = A([V('Low'), V('Mid'), V('High'), V('Top'), V('Gone', disabled=True), V('Last')], repr='i16')
+    p.variants[0].disc, p.variants[2].disc, p.variants[4].disc = '-2', '1 << 4', '100 / 3'
     if tier == 'quick':
         return out
     rnd = random.Random(seed * 31 + 9)
@@ -657,6 +679,8 @@ def corpus_agree(tier, seed):
     A([V('Red'), V('Gone', disabled=True), V('Blue'), V('GoneB', disabled=True, ts='bye')], prefix='c.')
     A([V('Unit'), V('Tup', 'tuple', ['u8', 'T']), V('Named', 'named', ['i32']), V('Gone', 'tuple', ['u8'], disabled=True)], derives=('EnumCount', 'EnumIter', 'VariantNames'))
     A([V('X%d' % i) for i in range(8)], serialize_all='SCREAMING_SNAKE_CASE')
+    A([V('Dog'), V('Cat', ser=['kitty'], disabled=True), V('Fish', ts='fishy'), V('Bird', aci=True, disabled=True)], serialize_all='lowercase').attr_layout = 'split'
+    A([V('Dog', ser=['d']), V('Cat', ser=['kitty'], disabled=True), V('Fish')], derives=('EnumCount', 'EnumIter', 'VariantNames')).attr_layout = 'split_rev'
     if tier == 'quick':
         return out
     styles = [None, 'kebab-case', 'camelCase', 'UPPERCASE', 'Train-Case']
@@ -671,6 +695,7 @@ def corpus_agree(tier, seed):
             vs.append(V(IS_IDENTS[(i + k) % len(IS_IDENTS)], kind, tys, disabled=((k % 2 == 1) and (k + i) % 4 == 1),
                         ser=[[], [stem], [stem, stem + stem]][(k + i) % 3], ts=[None, None, None, stem + '!'][(k + i) % 4]))
         p = A(vs, derives=ALL if fieldless else ('EnumCount', 'EnumIter', 'VariantNames'), serialize_all=styles[k % len(styles)])
+        p.attr_layout = ['joined', 'split', 'split_rev'][k % 3]
         if fieldless and k % 4 == 0:
             for i, v in enumerate(p.variants):
                 v.disc = str(5 * i + 1) if i % 2 == 0 else None
@@ -732,12 +757,14 @@ def corpus_case(tier, seed):
                 w = pool[idx]
                 idx += 1
                 key = oracle.convert_case(style, w)
-                if key in seen or key == '' or key in ('explicit-Stays', 'Keep_Me', 'to_String_Kept'):
+                if key in seen or key == '' or key in ('explicit-Stays', 'Keep_Me', 'to_String_Kept', 'KeepMe', 'StayPut'):
                     continue
                 seen.add(key)
                 vs.append(V(w))
             if not vs:
                 break
+            vs.append(V('KeepMe', ser=['KeepMe']))
+            vs.append(V('StayPut', ts='StayPut'))
             vs.append(V('ExplicitSer', ser=['explicit-Stays']))
             vs.append(V('ExplicitTs', ts='to_String_Kept', ser=['Keep_Me']))
             p = parse_prog(nm, vs, stem='Dw', derives=('VariantNames', 'Display', 'AsRefStr', 'IntoStaticStr', 'EnumString', 'EnumMessage'), serialize_all=style)
